@@ -146,7 +146,7 @@ def gen_job(seed, profile="general"):
             # a second, superposed body on the same field (with or without its own multiplier)
             it2 = {"type": "SolidBody", "umat": {"name": "NeoHookeCompressible", "p": {"mu": rfloat(r, 0.2, 1.0), "lmbda": rfloat(r, 0.5, 2.0)}}}
             if r.random() < 0.4:
-                it2["multiplier"] = r.choice([0.25, 3.0])
+                it2["multiplier"] = r.choice([0.25, 3.0, 0.0])  # 0.0: a switched-off body
             items.append(it2)
             if r.random() < 0.5:
                 items.reverse()
@@ -180,6 +180,8 @@ def gen_job(seed, profile="general"):
         fd = 2 if dim == 2 else 3
         if kind == "PointLoad":
             extra.append({"type": "PointLoad", "points": {"axis": 0, "at": "max", "first": 2}, "values": [0.0] * fd, "_top": [rfloat(r, -0.02, 0.02) for _ in range(fd)]})
+            if fkind == "Axi":
+                extra[-1]["axisymmetric"] = r.random() < 0.6  # ring load: 2 pi r times the value
         elif kind == "SolidBodyGravity":
             extra.append({"type": "SolidBodyGravity", "gravity": [0.0] * fd, "density": rfloat(r, 0.5, 2.0), "_top": [rfloat(r, -0.1, 0.1) for _ in range(fd)]})
         elif kind == "SolidBodyForce":
